@@ -17,13 +17,13 @@ for d in sorted(glob.glob('/verif/seeded/*/')):
     sig = caught[0]['signatures'].split(';')[0] if caught else ''
     rows.append("| %s | %s | %s | %s | %s | %s |" % (os.path.basename(d.rstrip('/')), ', '.join(files), title[:110].replace('|', '/'),
                 m['confirmed']['repository_suite_on_changed_tree'].replace('100% tests passed, 0 tests failed out of ', 'pass '),
-                ', '.join(c['check'] for c in caught) or '—', sig.replace('|', '/')[:70]))
+                ', '.join(c['check'] for c in caught) or ('— (' + m['note'].split(':')[0] + ')' if m.get('note') else '—'), sig.replace('|', '/')[:70]))
 txt = ("### 6.1 Seeded changes from independent agents\n"
        "Each change was produced by a fresh sub-agent that saw only the property text and a scratch worktree, then confirmed by\n"
        "`tools/ingest_seed.sh` in a scratch copy: patch applies, repository suite still passes, the agent's demo passes on the clean tree\n"
        "and fails on the changed tree; `our_checks` in `seeded/<id>/meta.json` records the quick checks run against the changed tree.\n"
-       "%d changes, %d detected by the quick tier of the check of their own property.\n\n"
-       "| seed | files | change (from the agent's notes) | repo suite | detected by (quick) | first signature |\n|-|-|-|-|-|-|\n" % (len(rows), sum(1 for r in rows if '| — |' not in r))) + "\n".join(rows) + "\n"
+       "%d changes, %d detected by the quick tier of a check; the others carry a note in their meta.json (outside the property's domain / scope).\n\n"
+       "| seed | files | change (from the agent's notes) | repo suite | detected by (quick) | first signature |\n|-|-|-|-|-|-|\n" % (len(rows), sum(1 for r in rows if '| — ' not in r))) + "\n".join(rows) + "\n"
 p = '/verif/DESIGN.md'
 s = open(p).read()
 marker = "### 6.1 Seeded changes from independent agents"
